@@ -262,6 +262,11 @@ def run(rep, repo, tier):
     except Unknown as u:
         rep.inconclusive('C11.R5', fpa.where, 'read-back inside the interpreted fragment', got=str(u))
         return
+    if selection(pa_rv) is None:
+        from ..shapes import returns_as_called
+        called_ = [r_ for r_ in returns_as_called(repo, fpa, M) if selection(r_) is not None]
+        if called_:
+            pa_rv = called_[0]
     sel = selection(pa_rv)
     if sel is None:
         rep.inconclusive('C11.R5', fpa.where, 'the list of matched pairs is a selection from all pairs', got=show(pa_rv)[:120])
